@@ -7,7 +7,7 @@ import (
 )
 
 // execLoopCut verifies a loop against its invariants (cut-point semantics, all iterations).
-func (ex *Exec) execLoopCut(s *ast.ForStmt, lc *LoopContract, ord int) ctl {
+func (ex *Exec) execLoopCut(s *ast.ForStmt, lc *LoopContract, ord int, myLabel string) ctl {
 	fm := ex.frame()
 	mk := func(assume bool) *SpecCtx {
 		return &SpecCtx{ex: ex, vars: ex.specVars, old: ex.entry, pkg: ex.fn.Pkg, locals: fm, assume: assume}
@@ -80,7 +80,14 @@ func (ex *Exec) execLoopCut(s *ast.ForStmt, lc *LoopContract, ord int) ctl {
 	case ctlReturn:
 		return ctlReturn
 	case ctlBreak:
-		return ctlNone
+		if ex.mine(myLabel) {
+			return ctlNone
+		}
+		return ctlBreak
+	case ctlContinue:
+		if !ex.mine(myLabel) {
+			return ctlContinue
+		}
 	}
 	if s.Post != nil {
 		ex.execStmt(s.Post)
